@@ -84,13 +84,13 @@ UNARY = {
 CONSTS = [0.5, 1.5, 2.0, -0.75, 3.0, 0.1, -2.5, 7.0, 1.0]
 
 
-def gen_ops(rng, re, n_ops, allow_float_lhs=True):
+def gen_ops(rng, re, n_ops, allow_float_lhs=True, allow_from_re=False):
     """append n_ops operations over the register file whose (approximate) real parts are in `re`"""
     ops = []
     for _ in range(n_ops):
         bound = lambda v: math.isfinite(v) and abs(v) < 1e6
         for _attempt in range(40):
-            kind = rng.below(10)
+            kind = rng.below(11)
             a = rng.below(len(re))
             x = re[a]
             op, val = None, None
@@ -132,6 +132,9 @@ def gen_ops(rng, re, n_ops, allow_float_lhs=True):
                     name = rng.pick(["powd", "pow_d"])
                     if 0.05 < x < 10 and abs(re[b]) < 4:
                         op, val = {"op": name, "a": a, "b": b}, x ** re[b]
+                elif kind == 10 and allow_from_re:
+                    c = rng.pick(CONSTS)
+                    op, val = {"op": "from_re", "a": a, "c": c}, c
                 elif kind == 9:
                     if rng.below(2):
                         c = rng.pick([2.0, 10.0, 2.5, 0.5])
@@ -261,7 +264,7 @@ def emit(seed, tier, with_numpy=False):
                     parts[1 + rng.below(nparts - 1)] = 0.0
                 inputs.append(parts)
                 re.append(parts[0])
-            ops = gen_ops(rng, re, 3 + rng.below(10))
+            ops = gen_ops(rng, re, 3 + rng.below(10), allow_from_re=cname in ARRAY_CLASSES)
             jobs.append({"kind": "scalar", "class": cname, "inputs": [[fbits(p) for p in ps] for ps in inputs], "ops": bitsify(ops, Splitmix(rng.next()) if with_numpy else None)})
     # integer exponents outside the i32 range: x ** n must still be the power (the pinned bindings route them to powf).
     # Base 1 and parts chosen so that every part of the result is exact whatever algorithm computes it.
@@ -386,6 +389,7 @@ def py_step(op, r):
     if name == "rmul_f": return c * a
     if name == "rdiv_f": return c / a
     if name == "neg": return -a
+    if name == "from_re": return type(a).from_re(c)
     if name == "pow_i": return a ** int(op["n"])
     if name == "pow_bigint": return a ** int(op["n_str"])
     if name == "powi": return a.powi(int(op["n"]))
